@@ -101,6 +101,55 @@ def gen(ctx, force_mode=None):
     return case, cfg
 
 
+def step_of(case, cfg):
+    """budget_step=None is documented as 1% of the instance's budget limit"""
+    return cfg["step"] if cfg.get("step") is not None else case.budget / 100
+
+
+def bound_of(case, cfg):
+    """explicit bound, a multiple of the budget, or the documented default: budget limit x (number of voters + 1)"""
+    if cfg.get("bound") is not None:
+        return F(cfg["bound"])
+    return case.budget * cfg["bound_mult"] if cfg.get("bound_mult") else case.budget * (len(case.ballots) + 1)
+
+
+def gen_window(ctx):
+    """budget-increase around Equal Shares on elections whose budget is LARGE against the granularity of the costs (budget 60..1000,
+    integer costs between a fifth and two thirds of it): the outcome changes inside budget windows of a few units, so which budgets
+    the wrapper tries — B, B + s, B + 2s, ... with the documented default s = B/100, up to and including the bound, and no other —
+    decides what it returns.  Half of the calls leave budget_step at its default; the bound is the default, a multiple of the budget,
+    or an explicit number that is NOT of the form B + k s"""
+    rng = ctx.rng
+    r = random.Random(rng.getrandbits(48))
+    B = r.choice([60, 100, 100, 200, 1000, 1000])
+    m = r.randint(2, 4)
+    names = r.sample(core.NAME_POOL, m)
+    costs = [F(r.randint(B // 5, (2 * B) // 3)) for _ in names]
+    if r.random() < 0.4 and m >= 2:
+        costs[1] = costs[0] + r.choice([1, 2, 3, 5])
+    nv = r.randint(3, 8)
+    ballots = []
+    for i in range(nv):
+        b = [x for x in names if r.random() < 0.45]
+        if not b:
+            b = [names[i % m]]
+        ballots.append(b)
+    case = Case(list(zip(names, costs)), F(B), "app", ballots, seed=r.getrandbits(32))
+    cfg = {"mode": "increase", "tie": r.choice(["lexico", "lexico", "min_cost", "max_cost"]), "res": r.random() < 0.6, "multi": r.random() < 0.3, "init": [],
+           "rule": "mes:" + r.choice(["Cost_Sat", "Cardinality_Sat"]), "stop": r.random() < 0.7}
+    cfg["step"] = None if r.random() < 0.5 else F(B) * r.choice([F(3, 100), F(7, 300), F(1, 40), F(1, 20)])
+    u = r.random()
+    if u < 0.3:
+        cfg["bound_mult"] = r.choice([2, 2, 3])
+    elif u < 0.7:
+        cfg["bound"] = F(B) * r.choice([F(11, 10), F(5, 4), F(3, 2), F(21, 20), 2]) + r.choice([0, 0, F(1, 2), 1, F(7, 3)])
+    else:
+        cfg["bound_mult"] = None  # the default bound: B (n + 1), a hundred tries per voter with the default step
+        if nv > 5:
+            cfg["bound_mult"] = 3
+    return case, cfg
+
+
 def run_wrapper(case, cfg, built):
     import pabutools.rules as R
 
@@ -111,11 +160,13 @@ def run_wrapper(case, cfg, built):
     if cfg["mode"] == "increase":
         f, kw = base_callable(cfg["rule"])
         params = dict(kw, tie_breaking=tie)
-        kwargs = dict(rule_params=params, resoluteness=res, exhaustive_stop=cfg["stop"], budget_step=core.to_num(cfg["step"]))
+        kwargs = dict(rule_params=params, resoluteness=res, exhaustive_stop=cfg["stop"])
+        if cfg.get("step") is not None:
+            kwargs["budget_step"] = core.to_num(cfg["step"])  # else: the documented default
         if init:
             kwargs["initial_budget_allocation"] = init
-        if cfg.get("bound_mult"):
-            kwargs["budget_bound"] = core.to_num(case.budget * cfg["bound_mult"])
+        if cfg.get("bound") is not None or cfg.get("bound_mult"):
+            kwargs["budget_bound"] = core.to_num(bound_of(case, cfg))
         return R.exhaustion_by_budget_increase(inst, prof, f, **kwargs)
     if cfg["mode"] == "completion":
         fs, ps = [], []
@@ -148,7 +199,7 @@ def reference(case, cfg, built):
         return [ids(case, out)] if res else [ids(case, o) for o in out]
 
     if cfg["mode"] == "increase":
-        bound = case.budget * cfg["bound_mult"] if cfg.get("bound_mult") else case.budget * (len(case.ballots) + 1)
+        bound = bound_of(case, cfg)
         cur = case.budget
         prev = [sorted(case.ids(cfg["init"]))]
         tries = 0
@@ -159,7 +210,7 @@ def reference(case, cfg, built):
                 return prev, tries
             if cfg["stop"] and any(exhaustive(case, W) for W in outs):
                 return outs, tries
-            cur += cfg["step"]
+            cur += step_of(case, cfg)
             prev = outs
         return prev, tries
     if cfg["mode"] == "completion":
@@ -220,9 +271,9 @@ def model_line(case, cfg, built):
     common = case.enc_common(built.entries(), built.enum())
     init = ".".join(str(i) for i in case.ids(cfg["init"]))
     if cfg["mode"] == "increase":
-        bound = case.budget * cfg["bound_mult"] if cfg.get("bound_mult") else case.budget * (len(case.ballots) + 1)
+        bound = bound_of(case, cfg)
         return (f"exhaust mode=increase {common} tie={cfg['tie']} init={init} res={1 if cfg['res'] else 0} rule={cfg['rule']} "
-                f"step={core.q2s(cfg['step'])} bound={core.q2s(bound)} stop={1 if cfg['stop'] else 0} fuel=3000")
+                f"step={core.q2s(step_of(case, cfg))} bound={core.q2s(bound)} stop={1 if cfg['stop'] else 0} fuel=3000")
     if cfg["mode"] == "completion":
         return f"exhaust mode=completion {common} tie={cfg['tie']} init={init} res={1 if cfg['res'] else 0} rules={';'.join(cfg['rules'])}"
     return f"mes {common} tie={cfg['tie']} init= res={1 if cfg['res'] else 0} sat={cfg['sat']} inc={core.q2s(cfg['inc'])} fuel=3000"
@@ -284,11 +335,17 @@ def run(ctx, n=None, compare=True):
     n_iter = ctx.scale(2500, 20000)  # extra stream: iterated Equal Shares over several budget rounds on larger elections
     n_comp = ctx.scale(5000, 25000)  # extra stream: irresolute completion on tie-rich elections
     n_over = ctx.scale(1500, 12000)  # round 4, drawn last: iterated Equal Shares with a supported project dearer than the budget limit
+    n_win = ctx.scale(700, 5000)  # round 6, drawn last: budget windows, default step, bounds off the grid
     lines, info = [], []
-    for k in range(n + n_iter + n_comp + n_over):
+    for k in range(n + n_iter + n_comp + n_over + n_win):
         if ctx.budget_s is not None and ctx.elapsed() > ctx.budget_s:
             break
-        case, cfg = gen(ctx, ("iterated" if k < n + n_iter else "completion" if k < n + n_iter + n_comp else "iterated-overbudget") if k >= n else None)
+        if k >= n + n_iter + n_comp + n_over:
+            case, cfg = gen_window(ctx)
+            ctx.count("stream", "budget windows: " + ("default step" if cfg["step"] is None else "explicit step") + ", " +
+                      ("explicit bound" if cfg.get("bound") is not None else "bound = multiple of the budget" if cfg.get("bound_mult") else "default bound"))
+        else:
+            case, cfg = gen(ctx, ("iterated" if k < n + n_iter else "completion" if k < n + n_iter + n_comp else "iterated-overbudget") if k >= n else None)
         if n + n_iter <= k < n + n_iter + n_comp:
             cfg["res"] = False
             cfg["init"] = []
@@ -299,7 +356,7 @@ def run(ctx, n=None, compare=True):
         built, outs, vs, tries = check(case, cfg, stats)
         ctx.evaluations += 1
         ctx.count("mode", cfg["mode"])
-        if k >= n + n_iter + n_comp:
+        if n + n_iter + n_comp <= k < n + n_iter + n_comp + n_over:
             ctx.count("stream", "iterated: supported project dearer than the budget limit")
         if stats.get("why"):
             ctx.count("iterated_stop", stats["why"] + (": a project dearer than the budget limit was paid for" if stats.get("dear_bought") else ""))
@@ -326,7 +383,7 @@ def search(ctx, disagreements):
 def replay(payload):
     case = Case.from_json(payload["case"])
     cfg = dict(payload["cfg"])
-    for k in ("step", "inc"):
+    for k in ("step", "inc", "bound"):
         if cfg.get(k) is not None:
             cfg[k] = F(cfg[k])
     built, outs, vs, tries = check(case, cfg)
